@@ -207,4 +207,15 @@ def nodeParse (root : Forest) (str : Option (List UInt8)) (limits : Option (List
     let r := parseNode [] str sect opt (-2) input
     if r.code < 0 then { code := r.code, children := root, st := r.st, src := r.src } else r
 
+/-! ### `mpt::parser::read` (mpt++/parse.cpp) -/
+
+/-- `parser::read(target)`: one more run of `mpt_parse_config` with the context of the parser object
+    (`prev` is set to Section, `curr` is what the last run left, `valid` is reset by `mpt_parse_config`)
+    on the unread part of its stream; on success the children of the target are REPLACED, on failure
+    they stay.  Result of the loop and the children afterwards. -/
+def parserRead (k : Kind) (cfg : Cfg) (curr : Nat) (target : Forest) (unread : List UInt8) :
+    Result Build × Forest :=
+  let r := loop k cfg nodeAppend ({} : Build) Flag.section_ { curr := curr } { rest := unread }
+  (r, if r.code < 0 then target else r.ctx.forest)
+
 end Mpt.Parse
